@@ -384,6 +384,8 @@ func runC18(t *testing.T, cases []map[string]interface{}, ev *vEvents) {
 	defer w2.Close()
 	htmlH := map[string]string{"Accept": "text/html", "User-Agent": "Mozilla/5.0 Chrome/120.0"}
 	admin := map[string]string{authCookieName: w.mintCookie("admin", AuthTypePassword|AuthTypeU2F, 0)}
+	redirectsKept := 0
+	_ = redirectsKept
 	for i, c := range cases {
 		payload := vPayloadText(vStrs2(c["payload"]))
 		if sk := vStr(c, "sink"); sk == "profile_path_user" || sk == "logout_user" {
@@ -401,6 +403,24 @@ func runC18(t *testing.T, cases []map[string]interface{}, ev *vEvents) {
 				Form: url.Values{"username": {"alice"}, "password": {"pw-alice"}, "login_destination": {"/x?a=" + payload}}}))
 			pages = append(pages, w2.Do(vReq{Method: "POST", Path: "/api/v0/login", Headers: htmlH,
 				Form: url.Values{"username": {"alice"}, "password": {"pw-alice"}, "login_destination": {"/" + payload + "#" + payload}}}))
+		case "redirect_bodies":
+			for _, d := range []string{"/x?a=" + payload, "/x/" + payload, "/x#" + payload} {
+				for _, m := range []string{"POST", "GET"} {
+					pages = append(pages, w.Do(vReq{Method: m, Path: "/api/v0/login", Headers: htmlH,
+						Form: url.Values{"username": {"alice"}, "password": {"pw-alice"}, "login_destination": {d}}}))
+				}
+				w.armBootstrapOTP("bob", "otp-123", time.Hour)
+				pages = append(pages, w.Do(vReq{Method: "POST", Path: bootstrapOtpAuthPath, Headers: htmlH,
+					Cookies: map[string]string{authCookieName: w.mintCookie("bob", AuthTypePassword, 0)},
+					Form:    url.Values{"OTP": {"otp-123"}, "login_destination": {d}}}))
+			}
+			kept := 0
+			for _, pg := range pages {
+				if pg.Status >= 300 && pg.Status < 400 && pg.Header.Get("Location") != profilePath {
+					kept++
+				}
+			}
+			redirectsKept += kept
 		case "user_query_root":
 			pages = append(pages, w.Do(vReq{Method: "GET", Path: "/", Headers: htmlH, Form: url.Values{"user": {payload}}}))
 		case "user_form_login_fail":
